@@ -10,7 +10,7 @@ import sys
 
 from dsim import core, refmodels
 from dsim.core import Result, Trace, canon, plain, StepBudgetExceeded
-from dsim.seams import SimClock, ClockSeam
+from dsim.seams import SimClock, ClockSeam, LogSeam
 
 ID = "C11"
 LEVEL = "fault_enumeration"
@@ -53,6 +53,7 @@ COMPONENTS = {
 }
 
 _seam = ClockSeam()
+_log = LogSeam()
 
 
 def _tier(tier):
@@ -145,6 +146,7 @@ def gen_plan(seed, tier):
     plan["r_max"] = cfg["r_max"]
     plan["sweep_max"] = cfg["sweep_max"]
     plan["binner"] = r.choice(["contents", "contents", "sums"])
+    plan["log"] = r.choice([None, None, None, None, None, None, "INFO", "INFO", "DEBUG"])      # deployment configuration: prtpy.* logging level
     form = r.choice(["list", "list", "names", "ndarray"])
     plan["form"] = form
     if algo in ("cg", "cbldm"):
@@ -268,6 +270,7 @@ def execute(plan, seed=0):
     tr = Trace()
     res.instance_key = _instance_key(plan)
     _seam.install()
+    _log.configure(plan.get("log"))
     tr.add("plan", plan=plan)
     if plan["algo"] == "ckkgen":
         _execute_generator(plan, res, tr)
@@ -276,6 +279,12 @@ def execute(plan, seed=0):
     else:
         _execute_sweep(plan, res, tr)
     _probe_instance(plan, res)
+    if plan.get("log"):
+        res.probe("logging_enabled_" + plan["log"])
+        if _log.records:
+            res.probe("logging_enabled_and_records_emitted")
+        if _log.format_errors:
+            res.note("log_record_format_errors", _log.format_errors)
     return res.finish(tr)
 
 
@@ -599,6 +608,8 @@ def shrink_candidates(plan, clause):
     if plan["algo"] != "cbldm" and plan["numbins"] > 1:
         yield mk(numbins=plan["numbins"] - 1)
     # simpler presentation
+    if plan.get("log"):
+        yield mk(log=None)
     if plan.get("form") != "list":
         yield mk(form="list")
     if plan["binner"] != "contents":
